@@ -45,3 +45,34 @@ package routing
 //@ ensures probsOK(prophet.predictabilities)
 //@ ensures prophet.predictabilities[k] <= old(prophet.predictabilities[k])
 //@ loop 0 invariant probsOK(prophet.predictabilities) && prophet.predictabilities[k] <= old(prophet.predictabilities[k]) && prophet.predictabilities != nil
+
+// ---- forwarding gate (C19) and routing memory (C13) ----
+
+// A data bundle is offered only to peers whose advertised predictability for the bundle's destination (the latest
+// vector received from that peer; absent entries read as 0) is strictly greater than the node's own, and never to
+// a peer already in the bundle's sent list.
+// govc:func (*Prophet).SenderForBundle property C19 C13
+//@ requires prophet.c != nil && prophet.c.store != nil && prophet.c.claManager != nil && prophet.predictabilities != nil && prophet.peerPredictabilities != nil
+//@ requires bp.bndl != nil && blocksNonNil(*bp.bndl)
+//@ let props := uf("propsOf", "map[string]interface{}", prophet.c.store, bp.Id)
+//@ let key := "routing/prophet/sent"
+//@ assigns mapof(props), prophet.c.store.$qok
+//@ ensures forall k int :: 0 <= k && k < len(sender) ==> sender[k] != nil && prophet.peerPredictabilities[sender[k].GetPeerEndpointID()][bp.bndl.PrimaryBlock.Destination] > prophet.predictabilities[bp.bndl.PrimaryBlock.Destination] @thorough
+//@ ensures old(has(props, key) && is(props[key], []bpv7.EndpointID)) ==> forall k, j int :: 0 <= k && k < len(sender) && 0 <= j && j < old(len(props[key].([]bpv7.EndpointID))) ==> sender[k].GetPeerEndpointID() != old(props[key].([]bpv7.EndpointID)[j]) @thorough
+//@ loop 0 invariant 0 <= rangeindex + 1 && prophet.predictabilities != nil && prophet.peerPredictabilities != nil
+//@ loop 0 invariant forall k int :: 0 <= k && k < len(sender) ==> sender[k] != nil && prophet.peerPredictabilities[sender[k].GetPeerEndpointID()][destination] > prophet.predictabilities[destination] @thorough
+//@ loop 1 invariant 0 <= rangeindex + 1
+
+// A summary vector addressed to this node replaces the sender's previous vector: what the node holds as the peer's
+// advertised predictabilities is exactly the latest vector received; vectors addressed to other nodes are ignored.
+// govc:func (*Prophet).NotifyNewBundle property C19
+//@ requires prophet.c != nil && prophet.c.store != nil && prophet.predictabilities != nil && prophet.peerPredictabilities != nil
+//@ requires bp.bndl != nil && blocksNonNil(*bp.bndl) && prophetTyped(*bp.bndl)
+//@ requires 0 <= prophet.config.Beta && prophet.config.Beta <= 1 && probsOK(prophet.predictabilities)
+//@ requires forall j int :: 0 <= j && j < len(bp.bndl.CanonicalBlocks) && bp.bndl.CanonicalBlocks[j].Value.BlockTypeCode() == 194 ==> probsOK(*(bp.bndl.CanonicalBlocks[j].Value.(*bpv7.ProphetBlock)))
+//@ let props := uf("propsOf", "map[string]interface{}", prophet.c.store, bp.Id)
+//@ assigns mapof(props), prophet.c.store.$qok, mapof(prophet.predictabilities), mapof(prophet.peerPredictabilities)
+//@ ensures probsOK(prophet.predictabilities)
+//@ ensures forall j int :: 0 <= j && j < len(bp.bndl.CanonicalBlocks) && bp.bndl.CanonicalBlocks[j].Value.BlockTypeCode() == 194 && bp.bndl.PrimaryBlock.Destination != prophet.c.NodeId ==> forall e bpv7.EndpointID :: has(prophet.peerPredictabilities, e) == old(has(prophet.peerPredictabilities, e)) && prophet.peerPredictabilities[e] == old(prophet.peerPredictabilities[e])
+//@ ensures forall j int :: 0 <= j && j < len(bp.bndl.CanonicalBlocks) && bp.bndl.CanonicalBlocks[j].Value.BlockTypeCode() == 194 && (forall k int :: 0 <= k && k < j ==> bp.bndl.CanonicalBlocks[k].Value.BlockTypeCode() != 194) && bp.bndl.PrimaryBlock.Destination == prophet.c.NodeId ==> has(prophet.peerPredictabilities, bp.bndl.PrimaryBlock.SourceNode) && ref(prophet.peerPredictabilities[bp.bndl.PrimaryBlock.SourceNode]) == ref(*(bp.bndl.CanonicalBlocks[j].Value.(*bpv7.ProphetBlock)))
+//@ loop 0 invariant 0 <= rangeindex + 1
